@@ -233,6 +233,57 @@ def cluster_problems(vis_name, ignore=()):
     return out
 
 
+def package_problems(vis_name):
+    """The module under test is a package that imports from its own submodule: only what the package module itself defines is
+    under test (a submodule is another module)."""
+    import inspect, os, shutil, sys, tempfile  # noqa: E401
+    import pynguin.configuration as config
+    from pynguin.analyses.module import generate_test_cluster
+    from pynguin.utils.generic.genericaccessibleobject import GenericConstructor, GenericEnum, GenericFunction, GenericMethod
+    d = tempfile.mkdtemp(prefix="c27pkg")
+    os.mkdir(os.path.join(d, "c27_pkg"))
+    with open(os.path.join(d, "c27_pkg", "util.py"), "w", encoding="utf-8") as f:
+        f.write("def clamp(x, lo, hi):\n    return max(lo, min(x, hi))\ndef unused_helper():\n    return 0\n"
+                "class Unit:\n    def __init__(self, n):\n        self.n = n\n    def double(self):\n        return self.n * 2\n")
+    with open(os.path.join(d, "c27_pkg", "__init__.py"), "w", encoding="utf-8") as f:
+        f.write("from c27_pkg.util import clamp, Unit\nimport c27_pkg.util as util\n"
+                "def area(w, h):\n    return clamp(w, 0, 9) * h\n"
+                "class Square:\n    def __init__(self, side):\n        self.side = Unit(side)\n    def scaled(self, k):\n        return self.side.double() * k\n")
+    sys.path.insert(0, d)
+    old = (config.configuration.module_name, config.configuration.element_visibility)
+    out = []
+    try:
+        for name in [n for n in sys.modules if n == "c27_pkg" or n.startswith("c27_pkg.")]:
+            sys.modules.pop(name)
+        config.configuration.module_name = "c27_pkg"
+        config.configuration.element_visibility = config.ElementVisibility[vis_name]
+        cluster = generate_test_cluster("c27_pkg")
+        seen = set()
+        for a in cluster.accessible_objects_under_test:
+            if isinstance(a, (GenericMethod, GenericFunction)):
+                where = getattr(inspect.unwrap(a.callable), "__module__", None)
+                label = getattr(a.callable, "__qualname__", str(a))
+            elif isinstance(a, (GenericConstructor, GenericEnum)):
+                where, label = a.owner.raw_type.__module__, a.owner.raw_type.__qualname__ + ".__init__"
+            else:
+                continue
+            seen.add(label)
+            if where != "c27_pkg":
+                out.append(("nothing defined in another module is marked as under test", f"foreign:submodule-of-the-package:{label}",
+                            f"{label} is defined in {where}"))
+        for want in ("area", "Square.__init__", "Square.scaled"):
+            if want not in seen:
+                out.append(("every eligible callable of the module is under test", f"missing:package:{want}", want))
+    finally:
+        config.configuration.module_name, config.configuration.element_visibility = old
+        for name in [n for n in sys.modules if n == "c27_pkg" or n.startswith("c27_pkg.")]:
+            sys.modules.pop(name)
+        if d in sys.path:
+            sys.path.remove(d)
+        shutil.rmtree(d, ignore_errors=True)
+    return out
+
+
 def _check_c27(part: Part, tier, seed):
     import re
     pat = re.compile(r"_[A-Za-z][A-Za-z0-9]*__\w+")
@@ -246,6 +297,11 @@ def _check_c27(part: Part, tier, seed):
         if bool(f(name)) != want:
             part.violation("__is_name_mangled matches _Class__name (single leading underscore, non-dunder)", f"mangled:{name}",
                            {"name": name, "got": bool(f(name)), "want": want}, target=f"{MO}:__is_name_mangled")
+    for vis in ("PUBLIC", "PROTECTED", "ALL"):
+        part.case()
+        for clause, cls, what in package_problems(vis):
+            part.violation(clause, f"{vis}:{cls}", {"visibility": vis, "what": what, "module": "package c27_pkg with submodule c27_pkg.util"},
+                           target=f"{MO}:__analyse_included_functions")
     for vis in ("PUBLIC", "PROTECTED", "ALL"):
         for ignore in ((), ("c27_subject.public_function",)):
             part.case()
